@@ -1080,16 +1080,18 @@ class ValueMap(Value):
         return str(self) < str(other)
 
     def __repr__(self):
-        return (
-            "<<<"
-            + ", ".join(
-                [
-                    f"{key} => {self.value[key]}"
-                    for key in self.getSortedKeys()
-                ]
-            )
-            + ">>>"
+        inner = ", ".join(
+            [
+                f"{key} => {self.value[key]}"
+                for key in self.getSortedKeys()
+            ]
         )
+        # keep nested set/map brackets apart so that the text can be read back
+        if inner.startswith("<"):
+            inner = " " + inner
+        if inner.endswith(">"):
+            inner = inner + " "
+        return "<<<" + inner + ">>>"
 
     def addMap(self, map_):
         for key, value in map_.items():
@@ -1425,11 +1427,13 @@ class ValueSet(Value):
         return str(self) < str(other)
 
     def __repr__(self):
-        return (
-            "<<"
-            + ", ".join([str(item) for item in self.getSortedItems()])
-            + ">>"
-        )
+        inner = ", ".join([str(item) for item in self.getSortedItems()])
+        # keep nested set/map brackets apart so that the text can be read back
+        if inner.startswith("<"):
+            inner = " " + inner
+        if inner.endswith(">"):
+            inner = inner + " "
+        return "<<" + inner + ">>"
 
     def addItem(self, item):
         self.value.add(item)
